@@ -165,6 +165,124 @@ Proof.
   injection H as <- <- <-. auto.
 Qed.
 
+
+(* ---------- math.Pow (integer exponent path): never NaN, never negative ---------- *)
+Open Scope R_scope.
+
+Lemma small1 : forall v, 0 <= v <= 2 -> Rabs v < bpow radix2 1024.
+Proof. intros v H. apply small2. lra. Qed.
+
+Lemma frexp_FR : forall x v, FR x v -> 0 < v ->
+  exists v1, FR (fst (Z.frexp x)) v1 /\ / 2 <= v1 < 1.
+Proof.
+  intros x v [F H] Hv.
+  generalize (FP.frexp_equiv x). destruct (Z.frexp x) as [m e]. cbn [fst]. intro E.
+  assert (Hs : is_finite_strict (FP.Prim2B x) = true).
+  { destruct (FP.Prim2B x) as [s|s| |s mm ee Hb]; try discriminate F; try reflexivity. cbn in H. lra. }
+  generalize (Bfrexp_correct prec emax FP.Hprec (FP.Prim2B x) Hs). rewrite <- E.
+  intros [H1 H2]. destruct (H2 ltac:(unfold emax; lia)) as [H3 _]. clear H2.
+  rewrite H in H1.
+  assert (Hp : 0 < B2R (FP.Prim2B m)).
+  { assert (0 < bpow radix2 e) by apply bpow_gt_0.
+    destruct (Rle_or_lt (B2R (FP.Prim2B m)) 0) as [Hn|]; [|assumption]. exfalso. nra. }
+  rewrite Rabs_pos_eq in H3 by lra.
+  exists (B2R (FP.Prim2B m)). split; [|exact H3]. split; [|reflexivity].
+  destruct (FP.Prim2B m) as [s|s| |s mm ee Hb]; cbn in Hp; try lra. reflexivity.
+Qed.
+
+(* loop state: a1 in [+0, 1], x1 in [1/2, 1] *)
+Definition unitf (a : PrimFloat.float) : Prop :=
+  exists v, FR a v /\ 0 <= v <= 1 /\ Bsign (FP.Prim2B a) = false.
+
+Lemma pow_loop_unit : forall fuel i x1 xe a1 ae v1, FR x1 v1 -> / 2 <= v1 <= 1 -> unitf a1 ->
+  unitf (fst (pow_loop fuel i x1 xe a1 ae)).
+Proof.
+  induction fuel as [|f IH]; intros i x1 xe a1 ae v1 Hx Hv Ha; cbn [pow_loop]. exact Ha.
+  destruct (i =? 0)%Z. exact Ha.
+  destruct ((xe <? -4096)%Z || (4096 <? xe)%Z). exact Ha.
+  assert (Sx : Bsign (FP.Prim2B x1) = false) by (eapply FR_pos_sign; [exact Hx | lra]).
+  (* a1' *)
+  assert (Ha' : unitf (fst (if Z.odd i then ((a1 * x1)%float, (ae + xe)%Z) else (a1, ae)))).
+  { destruct (Z.odd i); cbn [fst]; [|exact Ha]. destruct Ha as (va & Fa & Ra & Sa).
+    assert (Hr : 0 <= rnd (va * v1) <= 1) by (apply (rnd_between _ _ _ _ _ FR_zero FR_one); nra).
+    exists (rnd (va * v1)). split. apply FR_mul; try assumption. apply small1; lra. split. exact Hr.
+    rewrite (FR_mul_sign _ _ _ _ Fa Hx) by (apply small1; lra). rewrite Sa, Sx. reflexivity. }
+  destruct (if Z.odd i then ((a1 * x1)%float, (ae + xe)%Z) else (a1, ae)) as [a1' ae']. cbn [fst] in Ha'.
+  (* x1' = x1*x1, renormalised into [1/2, 1] *)
+  assert (Hq : FR (x1 * x1)%float (rnd (v1 * v1)) /\ / 4 <= rnd (v1 * v1) <= 1).
+  { assert (/ 4 <= rnd (v1 * v1) <= 1) by (apply (rnd_between _ _ _ _ _ FR_quarter FR_one); nra).
+    split; [|assumption]. apply FR_mul; try assumption. apply small1; lra. }
+  destruct Hq as [Fq Rq].
+  rewrite (FR_ltb _ _ _ _ Fq FR_half).
+  destruct (Rlt_bool_spec (rnd (v1 * v1)) (/ 2)).
+  - assert (Hd : / 2 <= rnd (rnd (v1 * v1) + rnd (v1 * v1)) <= 1)
+      by (apply (rnd_between _ _ _ _ _ FR_half FR_one); lra).
+    apply (IH _ _ _ _ _ (rnd (rnd (v1 * v1) + rnd (v1 * v1)))); try assumption.
+    apply FR_add; try assumption. apply small1; lra.
+  - apply (IH _ _ _ _ _ (rnd (v1 * v1))); try assumption. lra.
+Qed.
+
+(* Ldexp of a non-negative finite value is non-negative finite or +Inf *)
+Lemma ldexp_nn : forall a e, unitf a -> NNF (Z.ldexp a e) \/ PINF (Z.ldexp a e).
+Proof.
+  intros a e (v & [Fa Ea] & Rv & Sa). unfold NNF, PINF, FR. rewrite FP.ldexp_equiv.
+  generalize (Bldexp_correct prec emax FP.Hprec FP.Hmax mode_NE (FP.Prim2B a) e).
+  rewrite Ea, Sa. change (round radix2 _ _ (v * bpow radix2 e)) with (rnd (v * bpow radix2 e)).
+  destruct (Rlt_bool _ _).
+  - intros (H1 & H2 & H3). left. exists (rnd (v * bpow radix2 e)). repeat split.
+    + rewrite H2. exact Fa.
+    + exact H1.
+    + apply rnd_nonneg. apply Rmult_le_pos. lra. apply bpow_ge_0.
+    + exact H3.
+  - intro H. right. cbn in H.
+    destruct (Bldexp mode_NE (FP.Prim2B a) e); cbn in H; try discriminate H. injection H as ->. reflexivity.
+Qed.
+
+Lemma unitf_one : unitf 1%float.
+Proof. exists 1. split. exact FR_one. split. lra. reflexivity. Qed.
+
+(* math.Pow(x, k) for finite x > 0 and an integer k >= 0 *)
+Lemma pow_int_nn : forall x v k, FR x v -> 0 < v -> NNF (pow_int x k) \/ PINF (pow_int x k).
+Proof.
+  intros x v k Hx Hv. unfold pow_int.
+  destruct ((k =? 0)%Z || PrimFloat.eqb x 1).
+  { left. exists 1. split. exact FR_one. split. lra. reflexivity. }
+  destruct (k =? 1)%Z.
+  { left. exists v. split. exact Hx. split. lra. eapply FR_pos_sign; eassumption. }
+  destruct (frexp_FR x v Hx Hv) as (v1 & F1 & R1).
+  destruct (Z.frexp x) as [x1 xe]. cbn [fst] in F1.
+  generalize (pow_loop_unit 64 k x1 xe 1%float 0%Z v1 F1 ltac:(lra) unitf_one).
+  destruct (pow_loop 64 k x1 xe 1 0) as [a1 ae]. cbn [fst]. intro Hu.
+  apply ldexp_nn. exact Hu.
+Qed.
+
+(* product of a positive finite value with a value in [+0, +Inf] *)
+Lemma mul_nn : forall a b va, FR a va -> 0 < va -> NNF b \/ PINF b -> NNF (a * b)%float \/ PINF (a * b)%float.
+Proof.
+  intros a b va Ha Hva Hb.
+  assert (Sa : Bsign (FP.Prim2B a) = false) by (eapply FR_pos_sign; eassumption).
+  destruct Hb as [(vb & Hb & Rb & Sb) | Hb].
+  - unfold NNF, PINF, FR. rewrite FP.mul_equiv.
+    generalize (Bmult_correct prec emax FP.Hprec FP.Hmax mode_NE (FP.Prim2B a) (FP.Prim2B b)).
+    destruct Ha as [Fa Ea]. destruct Hb as [Fb Eb]. rewrite Ea, Eb, Sa, Sb.
+    change (round radix2 _ _ (va * vb)) with (rnd (va * vb)).
+    destruct (Rlt_bool _ _).
+    + intros (H1 & H2 & H3). left. exists (rnd (va * vb)). repeat split.
+      * rewrite H2, Fa, Fb. reflexivity.
+      * exact H1.
+      * apply rnd_nonneg. apply Rmult_le_pos; lra.
+      * apply H3. destruct (Bmult mode_NE (FP.Prim2B a) (FP.Prim2B b)); try reflexivity.
+        rewrite Fa, Fb in H2. discriminate H2.
+    + intro H. right. cbn in H.
+      destruct (Bmult mode_NE (FP.Prim2B a) (FP.Prim2B b)); cbn in H; try discriminate H. injection H as ->. reflexivity.
+  - right. unfold PINF in *. rewrite FP.mul_equiv, Hb. destruct Ha as [Fa Ea].
+    destruct (FP.Prim2B a) as [s|s| |s m e Hbd]; try discriminate Fa.
+    + cbn in Ea. lra.
+    + cbn in Sa. subst s. reflexivity.
+Qed.
+
+Close Scope R_scope.
+
 (* ---------- the backoff interval ---------- *)
 Open Scope R_scope.
 
@@ -226,6 +344,67 @@ Proof.
 Qed.
 
 Close Scope R_scope.
+
+(* ---------- validated policies: cur is finite and non-negative ---------- *)
+Open Scope R_scope.
+
+(* what convertRetryPolicy / isValidRetryPolicy accept: InitialBackoff > 0, MaxBackoff > 0
+   (int64 ns), BackoffMultiplier > 0 (JSON numbers are finite) *)
+Definition policy_ok_b (p : rcfg) : bool :=
+  (0 <? initB p)%Z && (initB p <=? max_i64)%Z && (0 <? maxB p)%Z && (maxB p <=? max_i64)%Z &&
+  PrimFloat.ltb 0%float (rmult p) && PrimFloat.ltb (rmult p) infinity.
+
+Lemma policy_ok_inv : forall p, policy_ok_b p = true ->
+  (0 < initB p <= max_i64)%Z /\ (0 < maxB p <= max_i64)%Z /\ exists vm, FR (rmult p) vm /\ 0 < vm.
+Proof.
+  intros p H. unfold policy_ok_b in H.
+  apply andb_prop in H; destruct H as [H H6]. apply andb_prop in H; destruct H as [H H5].
+  apply andb_prop in H; destruct H as [H H4]. apply andb_prop in H; destruct H as [H H3].
+  apply andb_prop in H; destruct H as [H1 H2].
+  apply Z.ltb_lt in H1, H3. apply Z.leb_le in H2, H4.
+  split. lia. split. lia.
+  assert (L : PrimFloat.leb 0%float (rmult p) = true).
+  { rewrite ltb_spec in H5. rewrite leb_spec. unfold SFltb in H5. unfold SFleb. destruct (SFcompare _ _) as [[| |]|]; try discriminate H5; reflexivity. }
+  destruct (above_FR _ _ _ FR_zero L H6) as (vm & Hm & Hr).
+  exists vm. split. exact Hm. rewrite (FR_ltb _ _ _ _ FR_zero Hm) in H5. apply Rlt_bool_true_inv in H5. exact H5.
+Qed.
+
+Lemma PINF_not_nan : forall x, PINF x -> is_nan_b x = false.
+Proof. intros x H. unfold is_nan_b. rewrite FP.eqb_equiv, H. reflexivity. Qed.
+
+(* cur = min(float64(InitialBackoff) x Pow(mult, k), float64(MaxBackoff)) is a finite float
+   in [0, float64(MaxBackoff)] for every validated policy and every k *)
+Lemma cur_FR : forall p k, policy_ok_b p = true -> exists v, FR (cur_of p k) v /\ 0 <= v <= R63.
+Proof.
+  intros p k Hp. destruct (policy_ok_inv p Hp) as (Hi & Hx & vm & Hm & Hvm).
+  destruct (FR_of_i64 (initB p)) as (Fi & Ri & _). lia.
+  destruct (FR_of_i64 (maxB p)) as (Fx & Rx & _). lia.
+  assert (Pi : 0 < rnd (IZR (initB p))).
+  { apply Rlt_le_trans with 1. lra. rewrite <- (rnd_id _ _ FR_one). apply rnd_le. apply IZR_le. lia. }
+  assert (Hprod := mul_nn _ _ _ Fi Pi (pow_int_nn _ _ k Hm Hvm)).
+  unfold cur_of, fmin. rewrite (FR_not_nan _ _ Fx), orb_false_r.
+  destruct Hprod as [(v & Fv & Rv & _) | Hinf].
+  - rewrite (FR_not_nan _ _ Fv). rewrite (FR_ltb _ _ _ _ Fx Fv).
+    destruct (Rlt_bool_spec (rnd (IZR (maxB p))) v).
+    + eexists. split. exact Fx. exact Rx.
+    + exists v. split. exact Fv. lra.
+  - rewrite (PINF_not_nan _ Hinf). rewrite FP.ltb_equiv, Hinf, Bltb_fin_pinf by apply Fx.
+    eexists. split. exact Fx. exact Rx.
+Qed.
+
+Close Scope R_scope.
+
+(* "otherwise lies in [0.8, 1.2] x min(initialBackoff x multiplier^k, maxBackoff)" for every
+   validated policy whose upper end cur x (0.8+0.4) stays below 2^63 (the complement is the
+   registered overflow finding), every k and every draw: in float64 arithmetic
+   int64(cur x 0.8) <= delay <= int64(cur x (0.8+0.4)), and the delay is not negative *)
+Lemma backoff_interval : forall p k r, policy_ok_b p = true -> ovf_delay p k = false -> draw_ok r = true ->
+  int_lo p k <= delay_of p k r <= int_hi p k /\ 0 <= int_lo p k.
+Proof.
+  intros p k r Hp Ho Hr. destruct (cur_FR p k Hp) as (v & Fv & Rv).
+  unfold ovf_delay in Ho. apply orb_false_elim in Ho. destruct Ho as [Ho _].
+  exact (delay_interval _ _ _ Fv Rv Ho Hr).
+Qed.
 
 (* the two overflow findings *)
 Lemma delay_overflow_refuted : exists p k r, draw_ok r = true /\ 0 < initB p <= max_i64 /\ 0 < maxB p <= max_i64 /\
@@ -351,3 +530,98 @@ Qed.
 Lemma success_step : forall t p st budget r,
   rpc_go t p st budget [] r = (tok_success t (tokens st), 0, []).
 Proof. reflexivity. Qed.
+
+(* ---------- the full bridge: every clause on every model trace ---------- *)
+
+(* pushback values that fit (the overflow is the registered finding, clause 6) *)
+Definition attempt_wf (a : attempt) : bool :=
+  match a_pb a with
+  | PBone s => match atoi s with Some pb => 1000000 * pb <=? max_i64 | None => true end
+  | _ => true
+  end.
+Definition op_wf (op : word) : bool :=
+  match parse_op op with Some script => forallb attempt_wf script | None => false end.
+(* the policy never reaches the int64 overflow of the computed delay (clause 5) *)
+Definition no_ovf (p : rcfg) : Prop := forall k, 0 <= k < maxAttempts p -> ovf_delay p k = false.
+
+Lemma should_retry_some : forall t p st a r st' d ex, should_retry t p st a r = (st', Some (d, ex)) ->
+  numRetries st + 1 < maxAttempts p /\ numRetries st' = numRetries st + 1 /\
+  ((ex = true /\ exists s pb, a_pb a = PBone s /\ atoi s = Some pb /\ 0 <= pb /\
+                 d = pushback_delay pb /\ sincePB st' = 0) \/
+   (ex = false /\ a_pb a = PBnone /\ d = delay_of p (sincePB st) r /\ sincePB st' = sincePB st + 1)).
+Proof.
+  intros t p st a r st' d ex H. unfold should_retry in H.
+  destruct (a_pb a) as [|s|] eqn:Pb; [| |discriminate H].
+  - destruct (negb (retryable (a_code a))); [discriminate H|].
+    destruct (throttled t _); [discriminate H|].
+    destruct (maxAttempts p <=? numRetries st + 1) eqn:E; [discriminate H|]. apply Z.leb_gt in E.
+    injection H as <- <- <-. cbn. split. lia. split. reflexivity. right. auto.
+  - destruct (atoi s) as [pb|] eqn:At; [|discriminate H].
+    destruct (pb <? 0) eqn:Neg; [discriminate H|]. apply Z.ltb_ge in Neg.
+    destruct (negb (retryable (a_code a))); [discriminate H|].
+    destruct (throttled t _); [discriminate H|].
+    destruct (maxAttempts p <=? numRetries st + 1) eqn:E; [discriminate H|]. apply Z.leb_gt in E.
+    injection H as <- <- <-. cbn. split. lia. split. reflexivity. left. split. reflexivity.
+    exists s, pb. auto.
+Qed.
+
+Lemma draw_ok_zero : draw_ok 0%float = true.
+Proof. reflexivity. Qed.
+
+Lemma delay_clauses_ok : forall t p, policy_ok_b p = true -> no_ovf p -> forall script st budget,
+  0 <= sincePB st <= numRetries st -> forallb attempt_wf script = true ->
+  forallb (fun c => snd c)
+    (delay_clauses p script (snd (rpc_go t p st budget script 0%float))
+       (map (fun x : Z * bool * Z => observed (fst (fst x))) (snd (rpc_go t p st budget script 0%float)))) = true.
+Proof.
+  intros t p Hp Hno. induction script as [|a rest IH]; intros st budget Hst Hw; cbn [rpc_go].
+  - reflexivity.
+  - cbn [forallb] in Hw. apply andb_prop in Hw. destruct Hw as [Hwa Hwr].
+    destruct (should_retry t p st a 0%float) as [st' [[d ex]|]] eqn:E; [|reflexivity].
+    destruct (budget <=? observed d); [reflexivity|].
+    destruct (should_retry_some _ _ _ _ _ _ _ _ E) as (Hlt & Hnr & Hcase).
+    assert (Hst' : 0 <= sincePB st' <= numRetries st') by (destruct Hcase as [(_ & s & pb & _ & _ & _ & _ & Hz) | (_ & _ & _ & Hz)]; lia).
+    specialize (IH st' (budget - observed d) Hst' Hwr).
+    destruct (rpc_go t p st' (budget - observed d) rest 0%float) as [[tk code] ds]. cbn [snd] in IH |- *.
+    cbn [map delay_clauses fst snd forallb]. rewrite IH, andb_true_r.
+    destruct Hcase as [(-> & s & pb & Pb & At & Hpb & -> & _) | (-> & Pb & -> & _)].
+    + rewrite Pb, At. unfold attempt_wf in Hwa. rewrite Pb, At in Hwa. rewrite Hwa. cbn [snd].
+      apply Z.leb_le in Hwa. unfold observed, pushback_delay, i64. unfold max_i64 in Hwa.
+      rewrite Z.mod_small by lia. apply Z.eqb_eq. lia.
+    + assert (Hk : 0 <= sincePB st < maxAttempts p) by lia.
+      rewrite (Hno _ Hk). cbn [snd].
+      destruct (backoff_interval p (sincePB st) 0%float Hp (Hno _ Hk) draw_ok_zero) as [[L1 L2] L3].
+      unfold observed. rewrite Z.max_r by lia.
+      apply andb_true_intro. split; apply Z.leb_le; assumption.
+Qed.
+
+Lemma run_from_all : forall t p vmax vr, tcfg_ok t vmax vr -> policy_ok_b p = true -> no_ovf p ->
+  forall ops tok i, in_bucket t tok -> forallb op_wf ops = true ->
+  exists obs, run_from t p tok ops = Some obs /\
+              forallb (fun c => snd c) (clauses_from t p tok i ops obs) = true.
+Proof.
+  intros t p vmax vr Ht Hp Hno. induction ops as [|op ops IH]; intros tok i Hb Hw.
+  - exists []. split; reflexivity.
+  - cbn [forallb] in Hw. apply andb_prop in Hw. destruct Hw as [Hw1 Hw2]. unfold op_wf in Hw1.
+    cbn [run_from]. destruct (parse_op op) as [script|] eqn:Po; [|discriminate Hw1].
+    assert (Hb' : in_bucket t (fst (fst (rpc t p tok script 0%float)))).
+    { unfold rpc. eapply rpc_go_bucket. eassumption. exact Hb. }
+    assert (Hd := delay_clauses_ok t p Hp Hno script (mkrs tok 0 0) rpc_budget ltac:(cbn; lia) Hw1).
+    fold (rpc t p tok script 0%float) in Hd.
+    destruct (rpc t p tok script 0%float) as [[tk code] ds] eqn:E0. cbn [fst snd] in Hb', Hd.
+    destruct (IH tk (i + 1) Hb' Hw2) as (os & Hr & Hc). cbn [fst snd]. rewrite Hr.
+    exists (obs_of (tk, code, ds) :: os). split. reflexivity.
+    cbn [clauses_from]. rewrite Po, split_obs_of, E0.
+    assert (Hso : same_outcome (tk, code, ds) code (map (fun x : Z * bool * Z => observed (fst (fst x))) ds) (to_bits tk) = true).
+    { unfold same_outcome. rewrite map_length, !Z.eqb_refl. reflexivity. }
+    rewrite Hso. cbn [fst snd].
+    rewrite !forallb_app, Hd. cbn [forallb snd andb]. rewrite Hso, (in_bucket_range _ _ Hb'), Hc. reflexivity.
+Qed.
+
+Lemma model_trace_holds : forall cfg t p vmax vr ops, decode_cfg cfg = Some (t, p) -> tcfg_ok t vmax vr ->
+  policy_ok_b p = true -> no_ovf p -> forallb op_wf ops = true ->
+  exists obs, run cfg ops = Some obs /\ holds_b cfg ops obs = true.
+Proof.
+  intros cfg t p vmax vr ops Hd Ht Hp Hno Hw. unfold run, holds_b, clauses. rewrite Hd.
+  eapply run_from_all; try eassumption. eapply max_in_bucket; eassumption.
+Qed.
